@@ -388,6 +388,13 @@ def forward_rule(run, rid, p, pairs, text):
             passed = {k.arg for k in c.keywords if k.arg} | set(f.posparams[1:1 + len(c.args)])
             both = (set(g.params) & set(f.params)) - {'self', 'msgs'}
             miss = sorted(both - passed)
+            # an option of the wrapper handed over under the name of a different option both functions have
+            crossed = sorted('%s=%s' % (k.arg, k.value.id) for k in c.keywords
+                             if k.arg and isinstance(k.value, ast.Name) and k.value.id != k.arg and
+                             k.value.id in both and k.arg in both)
+            if crossed:
+                run.ob(rid, '%s::%s->%s::crossed' % (g.rel, g.short, f.name), False,
+                       '%s passes one option under the name of another to %s: %s' % (g.short, f.name, ', '.join(crossed)), fn=g, node=c)
             run.ob(rid, '%s::%s->%s' % (g.rel, g.short, f.name), not miss,
                    '%s forwards %d same-named options to %s%s' % (g.short, len(same), f.name, '' if not miss else
                                                                  '; it accepts %s too but does not pass %s on' % (miss, 'it' if len(miss) == 1 else 'them')),
@@ -807,4 +814,63 @@ def keyorder_rule(run, rid, p, funcs, text):
                 run.ob(rid, key + '::' + nm, False,
                        '%s is set while handling one key (%s) and read while handling another: the outcome depends on the order of '
                        'the keys in %s' % (nm, norm(a)[:50], norm(s.iter)[:40]), fn=f, node=a)
+    return n
+
+
+# ---------------------------------------------------------------------------------------------
+# a number is never tested for truthiness where None is meant
+
+def bare_truth_tests(fnode):
+    """Names used as a whole condition (if x / x if x else / x or y / not x), with the node."""
+    out = []
+
+    def cond(t, node):
+        if isinstance(t, ast.Name):
+            out.append((t.id, node))
+        elif isinstance(t, ast.UnaryOp) and isinstance(t.op, ast.Not):
+            cond(t.operand, node)
+        elif isinstance(t, ast.BoolOp):
+            for v in t.values:
+                cond(v, node)
+    for x in ast.walk(fnode):
+        if isinstance(x, (ast.If, ast.IfExp, ast.While)):
+            cond(x.test, x)
+        elif isinstance(x, ast.BoolOp):
+            for v in x.values[:-1]:
+                cond(v, x)
+        elif isinstance(x, ast.Assert):
+            cond(x.test, x)
+    return out
+
+
+def zero_rule(run, rid, p, funcs, sources, text):
+    """In funcs, a name bound (directly or through copies / int() / float()) to the result of a call whose function name
+    is in `sources` must not be used as a bare condition."""
+    run.rule(rid, text)
+    n = 0
+    for f in funcs:
+        num = set()
+        changed = True
+        while changed:
+            changed = False
+            for s in p.own_nodes(f):
+                if not (isinstance(s, ast.Assign) and len(s.targets) == 1 and isinstance(s.targets[0], ast.Name)):
+                    continue
+                v = s.value
+                while isinstance(v, ast.Call) and getattr(v.func, 'id', '') in ('int', 'float', 'abs', 'round') and v.args:
+                    v = v.args[0]
+                hit = (isinstance(v, ast.Call) and norm(v.func).split('.')[-1] in sources) or (isinstance(v, ast.Name) and v.id in num)
+                if hit and s.targets[0].id not in num:
+                    num.add(s.targets[0].id)
+                    changed = True
+        if not num:
+            continue
+        n += 1
+        bad = [(nm, node) for nm, node in bare_truth_tests(f.node) if nm in num]
+        if not bad:
+            run.ob(rid, '%s::%s' % (f.rel, f.short), True, 'statistics %s are compared or tested against None only' % sorted(num), fn=f)
+        for nm, node in bad:
+            run.ob(rid, '%s::%s::%s' % (f.rel, f.short, nm), False,
+                   '%s holds a number (%s) and is used as a condition: a value of 0 is treated like "no value"' % (nm, norm(node)[:60]),
+                   fn=f, node=node)
     return n
